@@ -66,6 +66,76 @@ pub fn run(cx: &mut Ctx) {
         crate::rules::c04::leading_zero_rule(cx, rule);
     }
     escape_dispatch(cx);
+    decode_per_literal(cx);
+}
+
+/// J1: implicit concatenation joins decoded values, not source texts.
+fn decode_per_literal(cx: &mut Ctx) {
+    let rule = "C06.J1";
+    cx.rule(rule, "each literal of an implicit concatenation is decoded on its own: in parse_strings every call of parse_string sits in a `for` loop over the parameter `values` itself and takes source text, kind, triple-quote flag, start and end from that loop's pattern — an escape at the end of one literal (`'\\1' '2'`) cannot continue into the next, and each part is decoded under its own prefix");
+    cx.floor(rule, 2);
+    let Ok(src) = sm::load(&cx.repo, "parser/src/string.rs") else { return cx.anchor_missing(rule, "parser/src/string.rs") };
+    let Some(f) = src.free_fns("parse_strings").into_iter().next() else { return cx.anchor_missing(rule, "parse_strings") };
+    let param = f.sig.inputs.first().and_then(|a| if let syn::FnArg::Typed(pt) = a { Some(sm::tsc(&pt.pat)) } else { None }).unwrap_or_default();
+    // all calls
+    let mut total = 0;
+    sm::for_each_expr_in_block(&f.block, |e| {
+        if let syn::Expr::Call(c) = e {
+            if sm::tsc(&c.func) == "parse_string" {
+                total += 1;
+            }
+        }
+    });
+    let mut good = 0;
+    let mut bad: Vec<String> = vec![];
+    sm::for_each_expr_in_block(&f.block, |e| {
+        if let syn::Expr::ForLoop(fl) = e {
+            let mut ids = vec![];
+            sm::pat_idents(&fl.pat, &mut ids);
+            let iter = sm::tsc(&fl.expr);
+            // calls directly governed by this loop: in its header expression of an inner loop or in its body
+            let mut calls: Vec<Vec<String>> = vec![];
+            sm::for_each_expr_in_block(&fl.body, |x| {
+                if let syn::Expr::Call(c) = x {
+                    if sm::tsc(&c.func) == "parse_string" {
+                        calls.push(c.args.iter().map(|a| sm::tsc(a).trim_start_matches('&').to_string()).collect());
+                    }
+                }
+            });
+            for args in calls {
+                // only count a call under its nearest loop over the literals (the inner `for value in parse_string(..)?`
+                // has the call in its header, which belongs to the enclosing loop's body)
+                if !args.iter().all(|a| ids.contains(a)) {
+                    continue;
+                }
+                if iter == param && args.len() == 5 {
+                    good += 1;
+                } else {
+                    bad.push(format!("parse_string({}) under `for .. in {}`", args.join(","), iter));
+                }
+            }
+        }
+    });
+    // the name iterated must be the parameter: no `let values = <derived collection>` anywhere in the function
+    let mut rebound = false;
+    sm::for_each_stmt_in_block(&f.block, &mut |st: &syn::Stmt| {
+        if let syn::Stmt::Local(l) = st {
+            let mut ids = vec![];
+            sm::pat_idents(&l.pat, &mut ids);
+            if ids.contains(&param) {
+                rebound = true;
+            }
+        }
+    });
+    if rebound {
+        bad.push(format!("`{}` is re-bound to a derived collection before it is decoded", param));
+    }
+    if total >= 2 && good == total && bad.is_empty() {
+        cx.ok(rule, &format!("{} parse_string calls, each on one element of `{}`", total, param));
+        cx.ok_trivial(rule);
+    } else {
+        cx.fail(rule, &format!("{}/parse_strings", rule), &src.loc(f), &format!("{} of {} parse_string calls decode one element of `{}` with that element's own text, kind and offsets{}: literals may be merged before they are decoded", good, total, param, if bad.is_empty() { String::new() } else { format!(" ({})", bad.join("; ")) }));
+    }
 }
 
 /// K1: escapes are decoded exactly in the non-raw kinds.
